@@ -14,7 +14,7 @@ import (
 	rt "github.com/Azbesciak/RealDecisionMaker/lib/zz_verifrt"
 )
 
-//verif:bounds C15 HC15_count_and_front: CriteriaOmission.Apply with the majority listener (importance = weight): K<=3 (quick) / K<=4 (thorough) criteria, A=2 alternatives (one not considered), all five orderings (seeded ones with symbolic draws), ratio symbolic in [0,1], min in {0,1}, max in {absent, K-1, 1}; a weight entry for an undeclared criterion may be present in the method parameters; count = clamp(floor(K x ratio), min, max), omitted = front of the ordering and reported, omitted are declared criteria, the ordering is a permutation of the declared criteria, remaining alternatives and parameters are restricted to the kept criteria
+//verif:bounds C15 HC15_count_and_front: CriteriaOmission.Apply with the majority listener (importance = weight): K<=3 (quick) / K<=4 (thorough) criteria, A=2 alternatives (one not considered), all five orderings (seeded ones with symbolic draws), ratio symbolic in [0,1], min in {0,1}, max in {absent, K-1, 1, 0}; a weight entry for an undeclared criterion may be present in the method parameters; count = clamp(floor(K x ratio), min, max), omitted = front of the ordering and reported, omitted are declared criteria, the ordering is a permutation of the declared criteria, remaining alternatives and parameters are restricted to the kept criteria
 //verif:bounds C15 HC15_floor_fp: bit-precise: for n<=6 and every float ratio in [0,1], 0 <= int(floor(float64(n) x ratio)) <= n
 //verif:outside C15: under float64 the product n x ratio is rounded before the floor is taken (the count is the floor of the rounded product); K beyond the bounds
 
@@ -49,7 +49,11 @@ func HC15_count_and_front() {
 		minK = 1
 		props["min"] = float64(1)
 	}
-	switch rt.OneOf("max", "absent", "K-1", "one") {
+	switch rt.OneOf("max", "absent", "K-1", "one", "zero") {
+	case "zero":
+		rt.Assume(minK == 0)
+		maxK = 0
+		props["max"] = float64(0)
 	case "K-1":
 		maxK = K - 1
 		props["max"] = float64(K - 1)
@@ -86,7 +90,8 @@ func HC15_count_and_front() {
 	rt.Assume(k < K) // a bias that removes every criterion is outside the domain
 	bias := NewCriteriaOmission(c15orderings())
 	snap := rt.Snapshot(current)
-	res := bias.Apply(current, current, &bp, &listener)
+	original := vh.Params(vh.Alternatives("orig.", vh.AltIds[:2], crit), []string{"a"}, crit, majority.MajorityHeuristicParams{Weights: vh.Weights("orig.w.", crit, 0, 4)}) // differs from current: must not be used
+	res := bias.Apply(original, current, &bp, &listener)
 	rt.Assert("C15.received-state-untouched", rt.Same(snap, current))
 	rep := res.Props.(CriteriaOmissionResult)
 	rt.Assert("C15.count-is-clamped-floor", len(rep.OmittedCriteria) == k)
